@@ -194,6 +194,17 @@ def run(ctx):
                     for k in range(-n - 1, 2 * n + 2):
                         ctx.guard(check_case, {"word": wd, "feats": feats_to_json([Feat(ftype, "u1", (), ((s_, e_, st),))]),
                                                "track": list(range(n)), "k": k, "k2": (k * 7 + s_) % (2 * n + 1) - n, "m": 1})
+    # … and every *two-part* `source` feature made of plain parts (overlapping, gapped, listed in either order, summing
+    # to the record length or not): only the one-part whole-length `source` stays where it is
+    for n in range(2, min(top, 4) + 1):
+        wd = "ACgTN"[:n]
+        plain = [(s_, e_) for s_ in range(0, n) for e_ in range(s_ + 1, n + 1)]
+        for a_ in plain:
+            for b_ in plain:
+                for st in (0, 1):
+                    for k in (1, n - 1, n + 1, -1):
+                        ctx.guard(check_case, {"word": wd, "feats": feats_to_json([Feat(0, "u1", (), ((a_[0], a_[1], st), (b_[0], b_[1], st)))]),
+                                               "track": list(range(n)), "k": k, "k2": 1, "m": 1})
     ctx.extra["cov_small_scope"] = "all single-part locations on records of length 1..{}, every shift in [-n-1, 2n+1]".format(top)
     for _ in range(ctx.budget(1500, 60000)):
         ctx.guard(check_case, gen_case(ctx.rng))
